@@ -25,24 +25,25 @@ import (
 // ---------- C15: CLI exit status 0 iff the whole result was delivered ----------
 
 type c15Case struct {
-	Op       string `json:"op"`  // enc | dec | keygen | keygen-y
-	Key      string `json:"key"` // x25519-r | x25519-R | x25519-i | ed25519 | rsa
-	Armor    bool   `json:"armor"`
-	PlainLen int    `json:"plainLen"`
-	Stdin    bool   `json:"stdin"`
-	Out      string `json:"out"` // stdout | new | existing | missing-parent | parent-is-file | long-name | fsize | o-devfull | pipe-close | stdout-devfull | stdout-closed
-	OutLimit int    `json:"outLimit"`
-	Damage   string `json:"damage"` // none | header-bit | mac | payload-bit | truncate
-	DmgPos   int    `json:"dmgPos"`
-	Ident    string `json:"ident"`    // right | wrong | none
-	Flags    string `json:"flags"`    // "" | d+a | d+p | d+r | p+r | two-inputs | e+d | no-recipient | i-without-e
-	SameFile string `json:"sameFile"` // "" | input | identity | recipients
-	Spelling int    `json:"spelling"`
-	Umask    int    `json:"umask"`
-	NKeys    int    `json:"nkeys"`   // keygen-y: identities in the input
-	Long     bool   `json:"long"`    // long spellings of the flags (--decrypt, --output, ...)
-	Dash     bool   `json:"dash"`    // "-" for standard input / output where it applies
-	Symlink  bool   `json:"symlink"` // same-file cases: the input / key file is itself a symbolic link
+	Op           string `json:"op"`  // enc | dec | keygen | keygen-y
+	Key          string `json:"key"` // x25519-r | x25519-R | x25519-i | ed25519 | rsa
+	Armor        bool   `json:"armor"`
+	PlainLen     int    `json:"plainLen"`
+	Stdin        bool   `json:"stdin"`
+	Out          string `json:"out"` // stdout | new | existing | missing-parent | parent-is-file | long-name | fsize | o-devfull | pipe-close | stdout-devfull | stdout-closed
+	OutLimit     int    `json:"outLimit"`
+	Damage       string `json:"damage"` // none | header-bit | mac | payload-bit | truncate
+	DmgPos       int    `json:"dmgPos"`
+	Ident        string `json:"ident"`    // right | wrong | none
+	Flags        string `json:"flags"`    // "" | d+a | d+p | d+r | p+r | two-inputs | e+d | no-recipient | i-without-e
+	SameFile     string `json:"sameFile"` // "" | input | identity | recipients
+	Spelling     int    `json:"spelling"`
+	Umask        int    `json:"umask"`
+	NKeys        int    `json:"nkeys"`        // keygen-y: identities in the input
+	Long         bool   `json:"long"`         // long spellings of the flags (--decrypt, --output, ...)
+	Dash         bool   `json:"dash"`         // "-" for standard input / output where it applies
+	Symlink      bool   `json:"symlink"`      // same-file cases: the input / key file is itself a symbolic link
+	StdinIDFirst bool   `json:"stdinIdFirst"` // decrypt: an extra "-i -" (identities on stdin) precedes "-i key.txt"
 }
 
 var c15LongFlags = map[string]string{"-d": "--decrypt", "-e": "--encrypt", "-o": "--output", "-a": "--armor", "-p": "--passphrase", "-r": "--recipient", "-R": "--recipients-file", "-i": "--identity"}
@@ -301,6 +302,9 @@ func c15Check(c c15Case, st *stats.Run) error {
 		args = append(args, "-d")
 		switch c.Ident {
 		case "right":
+			if c.StdinIDFirst && !c.Stdin {
+				args = append(args, "-i", "-")
+			}
 			args = append(args, "-i", "key.txt")
 		case "wrong":
 			args = append(args, "-i", "other.txt")
@@ -406,7 +410,11 @@ func c15Check(c c15Case, st *stats.Run) error {
 		args = append(args, "-o", outPath)
 	}
 	var stdin []byte
-	if keysOnStdin {
+	if c.StdinIDFirst && !c.Stdin && c.Op == "dec" && c.Ident == "right" && c.Flags == "" {
+		// another (non-matching) identity arrives on standard input
+		stdin = []byte(refage.Bech32Encode("AGE-SECRET-KEY-", p.X25519[6]) + "\n")
+		args = append(args, "in.dat")
+	} else if keysOnStdin {
 		c.Stdin = strings.HasSuffix(c.Flags, "-conflict")
 		stdin, _ = os.ReadFile(filepath.Join(dir, map[bool]string{true: "recips.txt", false: "key.txt"}[c.Op == "enc"]))
 		if !c.Stdin {
@@ -652,6 +660,11 @@ func c15CheckKeygen(c c15Case, st *stats.Run, bin string) error {
 	case "existing":
 		outPath = "exists.txt"
 		os.WriteFile(filepath.Join(dir, outPath), existing, 0o644)
+	case "existing-symlink":
+		// -o names a symbolic link to an existing file
+		os.WriteFile(filepath.Join(dir, "target.txt"), existing, 0o644)
+		os.Symlink("target.txt", filepath.Join(dir, "link.txt"))
+		outPath = "link.txt"
 	case "missing-parent":
 		outPath = "no/dir/k.txt"
 	case "fsize":
@@ -682,7 +695,7 @@ func c15CheckKeygen(c c15Case, st *stats.Run, bin string) error {
 	}
 	outputOK := true
 	switch c.Out {
-	case "existing", "missing-parent", "stdout-closed":
+	case "existing", "existing-symlink", "missing-parent", "stdout-closed":
 		outputOK = false
 	case "fsize":
 		outputOK = c.OutLimit >= 250 || (c.Op == "keygen-y" && c.OutLimit >= total)
@@ -750,7 +763,7 @@ func c15CheckKeygen(c c15Case, st *stats.Run, bin string) error {
 		}
 		return nil
 	}
-	if c.Out == "existing" {
+	if c.Out == "existing" || c.Out == "existing-symlink" {
 		if res.code == 0 {
 			return pbt.Failf("C15/keygen-overwrites", "%s; -o names an existing file, exit status 0", desc)
 		}
@@ -797,9 +810,16 @@ type c15Pty struct {
 	// EncIdentity: the identity file is itself passphrase-encrypted (age -d -i enc.age);
 	// "right" / "wrong" passphrase typed at the prompt
 	EncIdentity string `json:"encIdentity"`
+	// StdoutTTY: decrypt with standard output on the terminal; Damage: "" | "after-nonce" | "mid"
+	StdoutTTY bool   `json:"stdoutTTY"`
+	Damage    string `json:"damage"`
 }
 
 func c15RunPty(dir string, answers []string, bin string, args ...string) (procResult, string) {
+	return c15RunPtyOpt(dir, answers, false, bin, args...)
+}
+
+func c15RunPtyOpt(dir string, answers []string, stdoutTTY bool, bin string, args ...string) (procResult, string) {
 	m, s, err := hx.OpenPTY()
 	if err != nil {
 		return procResult{code: -3, stderr: err.Error()}, ""
@@ -810,6 +830,9 @@ func c15RunPty(dir string, answers []string, bin string, args ...string) (procRe
 	cmd.Env = []string{"PATH=/nonexistent", "HOME=" + dir}
 	var so, se bytes.Buffer
 	cmd.Stdout, cmd.Stderr = &so, &se
+	if stdoutTTY {
+		cmd.Stdout = s
+	}
 	cmd.Stdin = bytes.NewReader(nil)
 	cmd.ExtraFiles = []*os.File{s}
 	cmd.SysProcAttr = &syscall.SysProcAttr{Setsid: true, Setctty: true, Ctty: 3}
@@ -882,19 +905,62 @@ func c15CheckPty(c c15Pty, st *stats.Run) error {
 	plain := hx.PRG(19, c.PlainLen)
 	st.Case(true, stats.HashJSON(c), "op=passphrase", fmt.Sprintf("pty:autogen=%v", c.Autogen), "pty:decrypt="+c.Decrypt, "pty:enc-identity="+c.EncIdentity)
 	st.Sample("passphrase-pty", c)
+	if c.StdoutTTY {
+		// plaintext goes to the terminal: a truncated payload is still an error
+		p := hx.ThePool()
+		text := []byte("printable plaintext line\n")
+		f := refFile(p, []hx.RecSpec{{Kind: "x25519", Idx: 0}}, hx.PRG(2, 16), 3, text)
+		file := f.Bytes()
+		switch c.Damage {
+		case "after-nonce":
+			file = file[:len(f.Header.Marshal())+16]
+		case "mid":
+			file = file[:len(file)-5]
+		}
+		os.WriteFile(filepath.Join(dir, "in.age"), file, 0o644)
+		os.WriteFile(filepath.Join(dir, "key.txt"), []byte(refage.Bech32Encode("AGE-SECRET-KEY-", p.X25519[0])+"\n"), 0o600)
+		res, tty := c15RunPtyOpt(dir, nil, true, filepath.Join(bin, "age"), "-d", "-i", "key.txt", "in.age")
+		if res.killed || res.code == -3 {
+			st.Label("inconclusive-pty")
+			return nil
+		}
+		if c.Damage == "" {
+			if res.code != 0 || !strings.Contains(strings.ReplaceAll(tty, "\r\n", "\n"), string(text)) {
+				return pbt.Failf("C15/nonzero-on-success", "age -d to the terminal: exit %d, terminal shows %q", res.code, tty)
+			}
+			return nil
+		}
+		if res.code == 0 {
+			return pbt.Failf("C15/exit0-on-failure", "age -d of a truncated file (%s) with standard output on a terminal exits 0 (terminal shows %q)", c.Damage, tty)
+		}
+		return nil
+	}
 	if c.EncIdentity != "" {
 		p := hx.ThePool()
 		r, _ := age.NewScryptRecipient(c.Pass)
 		r.SetWorkFactor(10)
-		idFile, err := encryptLib([]age.Recipient{r}, []byte("# encrypted identity\n"+refage.Bech32Encode("AGE-SECRET-KEY-", p.X25519[0])+"\n"), nil, c.Armor)
+		idPlain := []byte("# encrypted identity\n" + refage.Bech32Encode("AGE-SECRET-KEY-", p.X25519[0]) + "\n")
+		if c.EncIdentity == "damaged" {
+			// a long identity file (several chunks), damaged after the first chunk
+			for len(idPlain) < 150000 {
+				idPlain = append(idPlain, "# padding comment line ......................................\n"...)
+			}
+		}
+		idFile, err := encryptLib([]age.Recipient{r}, idPlain, nil, c.Armor)
+		if err == nil && c.EncIdentity == "damaged" {
+			idFile[len(idFile)-100] ^= 1
+		}
 		if err != nil {
 			return pbt.Failf("C15/harness", "%v", err)
 		}
 		os.WriteFile(filepath.Join(dir, "id.age"), idFile, 0o600)
 		os.WriteFile(filepath.Join(dir, "in.age"), refFile(p, []hx.RecSpec{{Kind: "x25519", Idx: 0}}, hx.PRG(2, 16), 3, plain).Bytes(), 0o644)
 		ans := c.Pass
-		if c.EncIdentity == "wrong" {
+		switch c.EncIdentity {
+		case "wrong":
 			ans += "?"
+		case "wrong-space":
+			ans += " "
 		}
 		before := snap(dir)
 		res, tty := c15RunPty(dir, []string{ans}, filepath.Join(bin, "age"), "-d", "-i", "id.age", "-o", "out.dat", "in.age")
@@ -903,9 +969,9 @@ func c15CheckPty(c c15Pty, st *stats.Run) error {
 			return nil
 		}
 		after := snap(dir)
-		if c.EncIdentity == "wrong" {
+		if c.EncIdentity != "right" {
 			if res.code == 0 {
-				return pbt.Failf("C15/exit0-on-failure", "age -d -i <passphrase-protected identity file> with a wrong passphrase exits 0 (tty %q)", tty)
+				return pbt.Failf("C15/exit0-on-failure", "age -d -i <passphrase-protected identity file> (%s) exits 0 (tty %q)", c.EncIdentity, tty)
 			}
 			if d := snapDiff(before, after); d != "" {
 				return pbt.Failf("C15/output-touched-on-refusal", "wrong passphrase for the identity file: %s", d)
@@ -927,8 +993,13 @@ func c15CheckPty(c c15Pty, st *stats.Run) error {
 		}
 		os.WriteFile(filepath.Join(dir, "in.age"), file, 0o644)
 		ans := c.Pass
-		if c.Decrypt == "wrong" {
+		switch c.Decrypt {
+		case "wrong":
 			ans = c.Pass + "x"
+		case "wrong-space-after":
+			ans = c.Pass + " "
+		case "wrong-space-before":
+			ans = " " + c.Pass
 		}
 		before := snap(dir)
 		res, tty := c15RunPty(dir, []string{ans}, filepath.Join(bin, "age"), "-d", "-o", "out.dat", "in.age")
@@ -937,9 +1008,9 @@ func c15CheckPty(c c15Pty, st *stats.Run) error {
 			return nil
 		}
 		after := snap(dir)
-		if c.Decrypt == "wrong" {
+		if c.Decrypt != "right" {
 			if res.code == 0 {
-				return pbt.Failf("C15/exit0-on-failure", "age -d with a wrong passphrase exits 0 (tty %q)", tty)
+				return pbt.Failf("C15/exit0-on-failure", "age -d with a wrong passphrase (%s) exits 0 (tty %q)", c.Decrypt, tty)
 			}
 			if d := snapDiff(before, after); d != "" {
 				return pbt.Failf("C15/output-touched-on-refusal", "age -d with a wrong passphrase: %s", d)
@@ -1035,6 +1106,7 @@ func c15Gen(t *rapid.T) c15Case {
 		c.SameFile = rapid.SampledFrom([]string{"input", "identity", "recipients"}).Draw(t, "sameFile")
 		c.Spelling = rapid.IntRange(0, 5).Draw(t, "spelling")
 		c.Symlink = rapid.IntRange(0, 2).Draw(t, "symlink") == 0
+		c.StdinIDFirst = rapid.IntRange(0, 2).Draw(t, "stdinIdFirst") == 0
 	case 3:
 		c.Flags = "input-dir"
 	}
@@ -1091,6 +1163,7 @@ func TestC15(t *testing.T) {
 				{Op: "enc", Key: "x25519-r", SameFile: "input"}, {Op: "dec", Key: "x25519-r", SameFile: "input"},
 				{Op: "dec", Key: "x25519-r", SameFile: "identity"}, {Op: "enc", Key: "x25519-i", SameFile: "identity"},
 				{Op: "enc", Key: "x25519-R", SameFile: "recipients"}, {Op: "dec", Key: "ed25519", SameFile: "identity"},
+				{Op: "dec", Key: "x25519-r", SameFile: "identity", StdinIDFirst: true},
 			} {
 				cs.Spelling, cs.PlainLen, cs.Damage, cs.Ident, cs.Umask, cs.Out = sp, 50, "none", "right", -1, "new"
 				for _, sl := range []bool{false, true} {
@@ -1108,7 +1181,7 @@ func TestC15(t *testing.T) {
 	pbt.Each(s, "cli-keygen", func(yield func(c15Case)) {
 		n := 0
 		for _, op := range []string{"keygen", "keygen-y"} {
-			for _, out := range []string{"stdout", "new", "existing", "missing-parent", "o-devfull", "stdout-devfull", "stdout-closed"} {
+			for _, out := range []string{"stdout", "new", "existing", "existing-symlink", "missing-parent", "o-devfull", "stdout-devfull", "stdout-closed"} {
 				for _, um := range []int{-1, 0, 0o22, 0o77} {
 					if um >= 0 && out != "new" {
 						continue
@@ -1155,6 +1228,13 @@ func TestC15(t *testing.T) {
 		yield(c15Pty{Decrypt: "right", Pass: "terminal passphrase", PlainLen: 100})
 		yield(c15Pty{Decrypt: "wrong", Pass: "terminal passphrase", PlainLen: 100})
 		yield(c15Pty{Decrypt: "right", Pass: "pässwörd", PlainLen: 0, Armor: true})
+		yield(c15Pty{Decrypt: "wrong-space-after", Pass: "terminal passphrase", PlainLen: 10})
+		yield(c15Pty{Decrypt: "wrong-space-before", Pass: "terminal passphrase", PlainLen: 10})
+		yield(c15Pty{StdoutTTY: true})
+		yield(c15Pty{StdoutTTY: true, Damage: "after-nonce"})
+		yield(c15Pty{StdoutTTY: true, Damage: "mid"})
+		yield(c15Pty{EncIdentity: "damaged", Pass: "identity passphrase", PlainLen: 50})
+		yield(c15Pty{EncIdentity: "wrong-space", Pass: "identity passphrase", PlainLen: 50})
 		yield(c15Pty{EncIdentity: "right", Pass: "identity passphrase", PlainLen: 50})
 		yield(c15Pty{EncIdentity: "wrong", Pass: "identity passphrase", PlainLen: 50, Armor: true})
 		if s.Shard == 0 {
